@@ -274,6 +274,13 @@ def run(ctx):
                         continue
                 if f.kind == "ctor" and how == "init" and txt in ("vector{}", "{}", ""):
                     continue
+                # a swap member: the whole list changes hands with another object of the same class (`swap(list, other.list)` / `list.swap(other.list)`), like a move in both directions
+                if f.name == "swap" and len(f.params) == 1 and short(cls) in (f.params[0].get("type") or ""):
+                    on = re.escape(f.params[0]["name"])
+                    fl0 = re.escape(short(fld))
+                    if re.fullmatch(r"\(?(std::)?swap\((this->)?%s, %s\.%s\)\)?|\(?(std::)?swap\(%s\.%s, (this->)?%s\)\)?|\(?(this->)?%s\.swap\(%s\.%s\)\)?|\(?%s\.%s\.swap\((this->)?%s\)\)?"
+                                    % (fl0, on, fl0, on, fl0, fl0, fl0, on, fl0, on, fl0, fl0), txt):
+                        continue
                 ctx.bad("R15.2", f, "order-list-rewritten:%s@%s" % (short(fld), n2.get("ln") if isinstance(n2, dict) else "?"),
                         "%s changes the creation-order list %s with `%s`: only the creating function appends to it and a move hands it over whole; a list that is cleared, rebuilt "
                         "or reordered no longer records the order of creation (usage() lists in a different order after it)" % (short(f.qual), short(fld), txt[:80]), f)
